@@ -27,7 +27,7 @@ def confirm(pid, rnd=""):
             continue
         meta = json.load(open(meta_path))
         demo_rel = meta.get("demo_path", "")
-        demos = [f for f in os.listdir(mdir) if f not in ("patch.diff", "meta.json")]
+        demos = sorted(f for f in os.listdir(mdir) if f.endswith(".rs"))
         if not demo_rel or not demos:
             print(f"{pid}-{n}: no demo, skipped")
             continue
